@@ -216,6 +216,16 @@ def stream_for0(pid, tier, seed):
         cases = defects + pulls_stream(rng, tier, pid, prof=dict(skip=True), n_random=1200 if not big else 50000, exh=False)
         progs = [[["next", "skip"], ["next", "next"]], [["skip"], ["chunk 2 all", "next"]], [["bufnew 2", "bufnext all", "skip"], ["next"]]]
         cases += exhaustive("C06-x2", small_bases(rng, progs, ["slice", "vec", "range", "iter"]), 2, 9 if not big else 12)
+        # very long known-size sources: one or more skips, then pulls and queries
+        j = 0
+        for (a, b) in [(0, MAXW), (0, MAXW - 1), (5, (1 << 63) + 9), (1, MAXW), (0, (1 << 63) + 1)]:
+            for prog in (["skip", "skip", "next", "hasmore", "len"], ["next", "skip", "chunk 3 all", "skip", "hasmore", "next"],
+                         ["chunk 4 all", "skip", "skip", "skip", "next", "len", "hasmore"]):
+                for nt in (1, 2):
+                    c = Case("C06-long%d" % j, "range", start=a, stop=b, threads=[list(prog) for _ in range(nt)], owner="drop")
+                    c.sched = rand_sched(rng, nt, 12)
+                    cases.append(c)
+                    j += 1
         for i in range(300 if not big else 10000):
             c = rand_case(rng, "C06-s%d" % i, dict(skip=True, lens=[0, 1, 2, 3, 5, 8], drain=0.0))
             k = len(c.all_ops())
@@ -230,6 +240,9 @@ def stream_for0(pid, tier, seed):
         cases = defects + pulls_stream(rng, tier, pid, prof=prof, n_random=1500 if not big else 60000, exh=False)
         progs = [[["next", "next"], ["chunk 2 all"]], [["bufnew 2", "bufnext all"], ["next", "skip"]], [["foreach 1"], ["foreach 2"]]]
         cases += exhaustive("C07-x2", small_bases(rng, progs, ["iter"]), 2, 10 if not big else 14)
+        # degenerate chunk sizes next to ordinary pulls
+        zprogs = [[["bufnew 0", "bufnext all", "next"], ["next", "next"]], [["chunk 0 all", "next"], ["chunk 2 all"]], [["foreach 0"], ["next", "chunk 1 all"]]]
+        cases += exhaustive("C07-z2", small_bases(rng, zprogs, ["iter"]), 2, 9 if not big else 12)
         return cases
     if pid in ("C08", "C15"):
         prof = dict(kinds=["vec", "array", "iter"], skip=(pid == "C08" and False), lens=[0, 1, 2, 3, 5, 8], drain=0.3)
